@@ -63,6 +63,10 @@ def _draw_range(rng: random.Random) -> (int, int):
 
 
 def gen_case(seed: int, tier: str, index: int) -> Dict[str, Any]:
+    if index % 3 == 2:
+        from props import c01_t
+
+        return c01_t.gen_case(seed, tier, index // 3, PROFILES, _net_cfg, _draw_range)
     rng = random.Random(mix(seed, "c01.case"))
     profile = PROFILES[index % len(PROFILES)] if index < 4 * len(PROFILES) else rng.choice(PROFILES)
     snaps = snapshot_files()
@@ -293,6 +297,10 @@ async def scenario(world: WorldA) -> None:
 
 
 def run_case(case: Dict[str, Any], replay: Optional[Dict[str, Any]] = None, keep_log: bool = False) -> RunResult:
+    if case.get("world") == "T":
+        from props import c01_t
+
+        return c01_t.run_case(case, replay, keep_log)
     world = WorldA(case, replay, keep_log=keep_log)
     return world.run(scenario)
 
@@ -308,7 +316,8 @@ RULE = ("Each run = one real GeckoAsyncSpa handshake with the real GeckoSimulato
         "open, or it is a fault-free run (which carries the must-succeed obligation); distinct = distinct event-log digest.")
 SHAPE_MEASURE = "hash of the per-transfer wire pattern (per STATU/STATV datagram: segment index, fate, delivery count)"
 COMPONENTS = {
-    "real": ["GeckoAsyncSpa (handshake, consumers, ping loop)", "GeckoAsyncStructure.get", "GeckoAsyncUdpProtocol + AsyncPeekableQueue",
+    "real": ["World T (1 run in 3): GeckoStructure.retry_request/_on_status_block_received on the real GeckoUdpSocket engine thread, simulator engine thread",
+             "GeckoAsyncSpa (handshake, consumers, ping loop)", "GeckoAsyncStructure.get", "GeckoAsyncUdpProtocol + AsyncPeekableQueue",
              "all protocol handlers", "GeckoSimulator handlers + GeckoStructure", "GeckoUdpSocket._thread_func (simulator engine, stepped)"],
     "stub": ["OS sockets -> SimNet", "wall clock -> virtual clock", "event loop selector -> SimLoop", "simulator random -> seeded stream"],
 }
@@ -321,7 +330,7 @@ ASSUMPTIONS = [
 PROBES = ["lost_segment", "lost_final_segment", "dup_segment", "dup_final_segment", "reordered_segments",
           "succeeded_on_attempt_ge3", "all_attempts_failed", "over_read", "length_multiple_of_39"]
 EXHAUSTIVE = {"quick": False, "thorough": False}
-N_QUICK = 480
+N_QUICK = 3000
 
 
 def jobs(tier: str, base_seed: int):
@@ -351,7 +360,7 @@ def job_cases(job, tier: str, base_seed: int):
     if job["kind"] == "seeded":
         for i in range(job["first"], job["first"] + job["count"]):
             c = gen_case(run_seed(PROP, base_seed, i), tier, i)
-            c["subspace"] = "seeded:" + c["cfg"]["profile"]
+            c["subspace"] = f"seeded:world{c['world']}:" + c["cfg"]["profile"]
             yield c
     elif job["kind"] == "sweep":
         c = sweep_case(mix(base_seed, "sweep", job["start"], job["lengths"][0]) & 0xFFFFFFFF, job["start"], job["lengths"])
